@@ -292,6 +292,7 @@ def rule_chr(ctx: Ctx) -> RuleReport:
                         rep.fail(Finding("C04-CHR", fi.module.rel, fi.qual, short(c), "decode(..., 'surrogateescape') smuggles undecodable bytes into the text as lone surrogates", line=c.lineno))
                     if isinstance(e, ast.Constant) and e.value == "surrogatepass" and c.func.attr == "decode":
                         rep.fail(Finding("C04-CHR", fi.module.rel, fi.qual, short(c), "decode(..., 'surrogatepass') lets lone surrogates through", line=c.lineno))
+    _declared_charset_decodes(ctx, rep)
     return rep
 
 
@@ -344,6 +345,90 @@ def _hex_escape_group(iv, g) -> bool:
             if isinstance(pat, str) and _re.search(r"\(\[0-9a-fA-F\]\{2\}\)", pat) and "HEX" in name.upper():
                 return True
     return False
+
+
+SAFE_CODECS = {"utf-8", "utf8", "utf-16", "utf-16-le", "utf-16-be", "utf-32", "ascii", "latin-1", "latin1", "iso-8859-1", "cp1252", "cp1250", "cp1251", "cp437", "cp850", "mac_roman", "mac-roman"}
+
+
+def _is_surrogate_sanitiser(e) -> bool:
+    """`X.encode("utf-16-le", "surrogatepass").decode("utf-16-le", "replace")`: pairs are combined, lone surrogates replaced."""
+    if not (isinstance(e, ast.Call) and isinstance(e.func, ast.Attribute) and e.func.attr == "decode"):
+        return False
+    inner = e.func.value
+    if not (isinstance(inner, ast.Call) and isinstance(inner.func, ast.Attribute) and inner.func.attr == "encode"):
+        return False
+    consts = [a.value for c in (e, inner) for a in list(c.args) + [k.value for k in c.keywords] if isinstance(a, ast.Constant)]
+    return "surrogatepass" in consts and "replace" in consts and any(str(x).startswith("utf-16") for x in consts)
+
+
+def _declared_charset_decodes(ctx, rep):
+    """A codec named by the document (meta charset, MIME charset, RFC 2047 word) may be one that decodes to lone surrogates (utf-7,
+    unicode_escape, raw_unicode_escape): what it produced must pass the surrogate sanitiser before it becomes result text."""
+    n = 0
+    for m in ctx.p.modules.values():
+        if "/tests/" in m.rel or not m.rel.startswith(X):
+            continue
+        helpers = {fi.qual for fi in m.functions.values() if any(isinstance(r, ast.Return) and r.value is not None and _is_surrogate_sanitiser(r.value) for r in walk_own(fi.node))}
+        for fi in m.functions.values():
+            for c in ast.walk(fi.node):
+                if not (isinstance(c, ast.Call) and isinstance(c.func, ast.Attribute) and c.func.attr == "decode" and c.args):
+                    continue
+                codec = c.args[0]
+                v = ctx.folder.fold(m, codec)
+                if isinstance(v, str):
+                    continue
+                # every value the codec name can take
+                domain = None
+                if isinstance(codec, ast.Name):
+                    vals = []
+                    for a in walk_own(fi.node):
+                        if isinstance(a, ast.Assign) and any(isinstance(t, ast.Name) and t.id == codec.id for t in a.targets):
+                            vals.append(a.value)
+                        elif isinstance(a, ast.For) and isinstance(a.target, ast.Name) and a.target.id == codec.id:
+                            vals.append(a.iter)
+                    flat = []
+                    for x in vals:
+                        f_ = ctx.folder.fold(m, x)
+                        if isinstance(f_, str):
+                            flat.append(f_)
+                        elif isinstance(f_, (tuple, list)) and all(isinstance(y, str) for y in f_):
+                            flat.extend(f_)
+                        elif isinstance(x, ast.IfExp) and isinstance(ctx.folder.fold(m, x.body), str) and isinstance(ctx.folder.fold(m, x.orelse), str):
+                            flat += [ctx.folder.fold(m, x.body), ctx.folder.fold(m, x.orelse)]
+                        else:
+                            flat = None
+                            break
+                    if flat:
+                        domain = set(flat)
+                n += 1
+                rep.unit(fi.key)
+                if domain is not None and {d.lower() for d in domain} <= SAFE_CODECS:
+                    rep.ok({"decode": f"{fi.qual}: {short(c, 50)}", "codec_in": sorted(domain)})
+                    continue
+                # the decoded value reaches a sanitiser in this function (assignment closure over locals)
+                st = _stmt(fi.node, c)
+                seeds = {t.id for t in (st.targets if isinstance(st, ast.Assign) else []) if isinstance(t, ast.Name)}
+                if isinstance(st, ast.Expr) and isinstance(st.value, ast.Call) and isinstance(st.value.func, ast.Attribute) and st.value.func.attr == "append" and isinstance(st.value.func.value, ast.Name):
+                    seeds.add(st.value.func.value.id)
+                changed = True
+                while changed:
+                    changed = False
+                    for a in walk_own(fi.node):
+                        if isinstance(a, ast.Assign) and len(a.targets) == 1 and isinstance(a.targets[0], ast.Name) and a.targets[0].id not in seeds and any(isinstance(x, ast.Name) and x.id in seeds for x in ast.walk(a.value)):
+                            seeds.add(a.targets[0].id)
+                            changed = True
+                clean = False
+                for x in ast.walk(fi.node):
+                    if _is_surrogate_sanitiser(x) and any(isinstance(y, ast.Name) and y.id in seeds for y in ast.walk(x)):
+                        clean = True
+                    if isinstance(x, ast.Call) and (dotted(x.func) or "").split(".")[-1] in helpers and any(isinstance(y, ast.Name) and y.id in seeds for a in x.args for y in ast.walk(a)):
+                        clean = True
+                if clean:
+                    rep.ok({"decode": f"{fi.qual}: {short(c, 50)}", "codec": "declared by the document", "sanitised": True})
+                else:
+                    rep.fail(Finding("C04-CHR", m.rel, fi.qual, "declared charset decoded without surrogate clean-up: " + anorm(c, fi.node), f"`{short(c, 60)}` decodes with a codec the document names; utf-7 ('+2D0-'), unicode_escape and raw_unicode_escape decode to lone surrogates, and nothing replaces them before the text is returned: get_full_text().encode('utf-8') raises", line=c.lineno))
+    if n < 6:
+        raise AnalysisError(f"C04-CHR: only {n} decode sites with a computed codec name found (6 confirmed)")
 
 
 def _passes_normaliser(fi, chr_call) -> bool:
